@@ -648,6 +648,66 @@ fn run_sm(ctx: &RunCtx, _tier: Tier) -> RunOut {
     out
 }
 
+/// "No schedule can deadlock the flow": an embedder task shares storage and app set with the
+/// state machine, holds the storage lock across its own I/O and then takes the app set; its two
+/// steps are injected at every point of a run with every operation blocking.
+fn run_embedder(ctx: &RunCtx) -> RunOut {
+    struct ED;
+    impl Director for ED {
+        fn http(&mut self, w: &mut Inner, req: &WireReq) -> HttpAns {
+            let update = req.kind == ReqKind::UpdateCheck && w.choose("server.update", 2) == 1;
+            HttpAns::Resp(RespSpec::ok(response_bytes(&[AppDoc::new("app-A", if update { Uc::OkManifest("2.0.0.0".into()) } else { Uc::NoUpdate })], &Daystart::Absent)))
+        }
+    }
+    let mut s = Setup::new(Mode::Start);
+    s.blocking = Blocking::all();
+    let mut e = Exec::new(s, Box::new(ED), Store::default());
+    let emb = e.add_embedder();
+    let opts = SchedOpts { por: true, spurious: false, drops: false };
+    let stop = e.run_with(&opts, 30, |_ex, en| {
+        if let Some(i) = en.iter().position(|a| matches!(a, Action::Complete(_, OpKind::Gate))) {
+            if choose("inject", 2) == 1 {
+                return Some(i);
+            }
+        }
+        en.iter().position(|a| !matches!(a, Action::Complete(_, OpKind::Gate))).or(Some(0))
+    });
+    // drain: default scheduling (gates last) until the embedder is done and the machine is idle again
+    let mut guard = 0;
+    let idles = |e: &Exec| e.w.lock().unwrap().log.iter().filter(|o| matches!(o, Obs::Ev(Ev::State(State::Idle)))).count();
+    let target = idles(&e) + 1;
+    while guard < 250 && !(e.client_done(emb) && idles(&e) >= target) {
+        guard += 1;
+        let en = e.enabled(&opts);
+        // runnable tasks first, then the embedder's pending steps, then timers and the other completions
+        let pick = en
+            .iter()
+            .position(|a| matches!(a, Action::RunSm | Action::RunClient(_)))
+            .or_else(|| en.iter().position(|a| matches!(a, Action::Complete(_, OpKind::Gate))))
+            .or(if en.is_empty() { None } else { Some(0) });
+        match pick {
+            Some(i) => e.perform(en[i]),
+            None => break,
+        }
+    }
+    let log = e.log();
+    let mut out = RunOut::new(if e.client_done(emb) { "embedder-done" } else { "embedder-stuck" }, true, trace::digest(&log));
+    if ctx.want_trace {
+        out.trace = Some(trace::trace_json(&log));
+    }
+    let _ = stop;
+    if !e.client_done(emb) || idles(&e) < target {
+        return out.fail(
+            "deadlock between the state machine and an embedder task sharing storage and app set",
+            format!("embedder finished: {}, Idle reached again: {}", e.client_done(emb), idles(&e) >= target),
+        );
+    }
+    if !e.lost_wakes.is_empty() {
+        return out.fail("lost wake-up", format!("{:?}", e.lost_wakes));
+    }
+    out
+}
+
 fn parts(tier: Tier) -> Vec<PartDef> {
     let gen = |name: &str, len: usize, d: usize| {
         PartDef::new(
@@ -668,6 +728,13 @@ fn parts(tier: Tier) -> Vec<PartDef> {
         json!({"progress_sequences": "0..3 values", "install": ["ok", "failed"], "installer_waits_for_last_acknowledgement": [true, false], "installer_reports": ["one after the other", "all at once (joined)"], "modes": ["oneshot", "start"], "blocking": "timers, http, plan, install, each progress, reboot",
                "scheduling": format!("at most {d} non-default choices (other completion order, delayed or spurious consumer poll)")}),
         move |ctx| run_sm(ctx, tier),
+    ));
+    v.push(PartDef::new(
+        "embedder-sharing-storage-and-app-set",
+        Cfg::new("C13/embedder-sharing-storage-and-app-set").dev(0).free(&["inject", "server.update"]),
+        json!({"embedder": "a task sharing the Rc<Mutex<Storage>> and Rc<Mutex<AppSet>> given to the builder: locks storage, waits for its own I/O, locks the app set (the documented order), releases", "injection": "its two steps at every step 0..29 of a run with every operation blocking",
+               "oracle": "the embedder finishes and the machine reaches Idle again (no deadlock), no lost wake-up"}),
+        run_embedder,
     ));
     // emission points of the real state machine while control requests arrive: the check's future
     // is then re-polled by the select! loop within one poll of the stream
